@@ -186,6 +186,7 @@ pub fn run_parse(req: &Value, out: &mut dyn FnMut(Value)) {
     let hs = HandlerScript {
         chunks: vec![],
         prompt: -1,
+        perr: 0,
     };
     let mut ctx = TypedCtx {
         raw_calls: vec![],
